@@ -566,15 +566,28 @@ def _repr(I, self, args, kw, fr, site):
     return VSeq([Seg("A", I.st.fresh_seq("repr"), I.fresh_len("repr"))], "str")
 
 
-@intrinsic("builtins.min", "builtins.max")
-def _minmax(I, self, args, kw, fr, site):
+@intrinsic("builtins.min")
+def _min(I, self, args, kw, fr, site):
+    return _minmax(I, self, args, kw, fr, site, True)
+
+
+@intrinsic("builtins.max")
+def _max(I, self, args, kw, fr, site):
+    return _minmax(I, self, args, kw, fr, site, False)
+
+
+def _minmax(I, self, args, kw, fr, site, ismin):
     if len(args) == 2 and all(isinstance(a, (VInt, VBool)) for a in args):
         x, y = zint(_int(args[0], I)), zint(_int(args[1], I))
-        ismin = site.startswith("call(min)")
         if not fr.spec:
             # case split instead of an if-then-else term: keeps later obligations linear
             le = I.st.decide(x <= y)
             return VInt(simp((x if le else y) if ismin else (y if le else x)))
+        # specification: resolved by the path condition when it already orders the two
+        if I.st.proves(x <= y):
+            return VInt(simp(x if ismin else y))
+        if I.st.proves(y <= x):
+            return VInt(simp(y if ismin else x))
         return VInt(simp(z3.If(x <= y, x, y) if ismin else z3.If(x >= y, x, y)))
     raise Unsupported("min/max of %s" % [I.type_name(a) for a in args])
 
@@ -818,6 +831,47 @@ def unpack_part(I, part, kind, size):
     r = f(t)
     st.assume(z3.And(r >= 0, r < 2 ** (8 * size)))
     return r
+
+
+@intrinsic("int.from_bytes")
+def _from_bytes(I, self, args, kw, fr, site):
+    """int.from_bytes(b, 'big'): big-endian value = Horner accumulator bacc(0, b)"""
+    st = I.st
+    b = args[0]
+    order = ropes.conc_value(args[1]) if len(args) > 1 else ropes.conc_value(kw.get("byteorder", ropes.const_seq("big")))
+    if order != "big" or kw.get("signed") is not None or not isinstance(b, VSeq):
+        raise Unsupported("int.from_bytes variant")
+    c = ropes.conc_value(b)
+    if c is not None:
+        return VInt(int.from_bytes(c, "big"))
+    t = smt.bacc(z3.IntVal(0), ropes.seq_term(st, b))
+    n = ropes.seq_len(b)
+    st.assume(t >= 0)
+    if is_conc(n):
+        st.assume(t < 256 ** n)
+    return VInt(t)
+
+
+@intrinsic("int.to_bytes")
+def _to_bytes(I, self, args, kw, fr, site):
+    """x.to_bytes(n, 'big') for a concrete n: OverflowError unless 0 <= x < 256**n; value(result) = x"""
+    st = I.st
+    n = _int(args[0], I)
+    order = ropes.conc_value(args[1]) if len(args) > 1 else "big"
+    if order != "big" or not is_conc(n) or kw.get("signed") is not None:
+        raise Unsupported("int.to_bytes variant")
+    x = self.t
+    if is_conc(x):
+        try:
+            return ropes.const_seq(x.to_bytes(n, "big"))
+        except OverflowError:
+            I.raise_py("OverflowError", "int too big to convert", site)
+    ok = z3.And(zint(x) >= 0, zint(x) < 256 ** n)
+    if not fr.spec and not st.decide(ok):
+        I.raise_py("OverflowError", "int too big to convert", site)
+    t = st.fresh_seq("to_bytes")
+    st.assume(z3.And(smt.slen(t) == n, smt.bacc(z3.IntVal(0), t) == zint(x)))
+    return VSeq([Seg("A", t, n)], "bytes")
 
 
 @intrinsic("os.urandom")
